@@ -62,6 +62,14 @@ func genBody(rng *hx.Rng, maxSize int, id int) (msg string, wire string, kind st
 	for i := 0; i < n; i++ {
 		lines = append(lines, rng.Pick(bodyLines))
 	}
+	if maxSize >= 30000 && kind == "valid" {
+		// lines longer than the reader's buffer, with dots where a buffer-sized piece would begin
+		k := 1 + rng.Intn(2)
+		lines = append(lines, strings.Repeat("x", 4096*k)+rng.Pick([]string{".", "..", ".tail", "..two dots", "", "QUIT"}))
+		if rng.Chance(50) {
+			lines = append(lines, strings.Repeat("y", 4095)+".", "HELP", "RSET", "after the long lines")
+		}
+	}
 	if rng.Chance(15) {
 		// push it over the limit
 		for i := 0; i < maxSize/40+2; i++ {
@@ -174,7 +182,7 @@ func codes(out string) string {
 func main() {
 	o, rep := hx.Init("C16")
 	hx.Quiet()
-	rep.Rule = "byte streams of 1..4 LMTP transactions generated from the command grammar (case variants, ESMTP parameters, bracket/blank variants, RSET, repeated MAIL, NOOP/HELP/VRFY/unknown, missing LHLO/MAIL, 0..max+1 recipients incl. syntactically odd ones) with bodies made of dot lines, command look-alikes, bare LF, 8-bit octets, header-less / From-less / recipient-less and over-size messages, both terminators; sent pipelined in one write; the reply-code stream is compared with the Lean machine (max_size ∈ {64,1024}, max_recipients ∈ {1,3}). Distinct by stream; non-trivial when the stream contains a DATA phase"
+	rep.Rule = "byte streams of 1..4 LMTP transactions generated from the command grammar (case variants, ESMTP parameters, bracket/blank variants, RSET, repeated MAIL, NOOP/HELP/VRFY/unknown, missing LHLO/MAIL, 0..max+1 recipients incl. syntactically odd ones) with bodies made of dot lines, command look-alikes, bare LF, 8-bit octets, header-less / From-less / recipient-less and over-size messages, both terminators; sent pipelined in one write; the reply-code stream is compared with the Lean machine (max_size ∈ {64, 1024, 30000 — the last with body lines longer than the 4096-byte read buffer and dots at its multiples —}, max_recipients ∈ {1,3}). Distinct by stream; non-trivial when the stream contains a DATA phase"
 	dir, cleanup := hx.WorkDir("c16")
 	defer cleanup()
 	w, err := world.New(dir, "example.com")
@@ -212,7 +220,7 @@ func main() {
 			n = 12000
 		}
 		for i := 0; i < n; i++ {
-			mx := []int{64, 1024}[rng.Intn(2)]
+			mx := []int{64, 1024, 1024, 30000}[rng.Intn(4)] // 30000: room for lines longer than a 4096-byte read buffer
 			mr := []int{1, 3}[rng.Intn(2)]
 			s, _ := genStream(rng, mx, mr, i*10)
 			cases = append(cases, cs{mx, mr, s})
